@@ -47,6 +47,47 @@ int main(int argc, char **argv)
           Ev("cmphmac").i("id", id++).i("alg", alg).b("key", key).i("pos", pos).b("file", file).b("given", given, 64).i("res", r ? 1 : 0).emit();
         }
       }
+      // aggregate-preserving alterations of the tag: two bytes swapped (same sum, xor and multiset),
+      // +d / -d on two bytes (same sum), the same mask xor-ed into two bytes (same xor-fold)
+      if (n % 4 == 1)
+      {
+        hmac h0;
+        u8_t t0[64];
+        FILE *f0 = wv_memfile(file);
+        fseek(f0, pos, SEEK_SET);
+        h0.gethmac(alg, key.data(), f0, t0);
+        fclose(f0);
+        int hl = h0.get_length();
+        for (int variant = 0; variant < 3; ++variant)
+        {
+          u8_t given[64];
+          memset(given, 0, 64);
+          memcpy(given, t0, hl);
+          int i = (n + variant) % hl, j = (i + 1 + (n % (hl - 1))) % hl;
+          if (variant == 0)
+          {
+            if (given[i] == given[j])
+              continue;
+            std::swap(given[i], given[j]);
+          }
+          else if (variant == 1)
+          {
+            given[i] = (u8_t)(given[i] + 1);
+            given[j] = (u8_t)(given[j] - 1);
+          }
+          else
+          {
+            given[i] ^= 0x24;
+            given[j] ^= 0x24;
+          }
+          FILE *g = wv_memfile(file);
+          fseek(g, pos, SEEK_SET);
+          hmac h2;
+          bool r = h2.cmphmac(alg, key.data(), g, given);
+          fclose(g);
+          Ev("cmphmac").i("id", id++).i("alg", alg).b("key", key).i("pos", pos).b("file", file).b("given", given, 64).i("res", r ? 1 : 0).emit();
+        }
+      }
       // writeFileHmac: hash from hashMark to EOF, patch at writeMark
       if (n % 4 == 0)
       {
